@@ -286,7 +286,7 @@ L7_EXCEPTIONS = {
 }
 
 
-@rule("L7", "RESULT-ASSIGNED: a procedure standing in for a function assigns its result parameter on every normal path", ["C20", "C05"], floor=8)
+@rule("L7", "RESULT-ASSIGNED: a procedure standing in for a function assigns its result parameter on every normal path", ["C20"], floor=4)
 def l7(ctx: Ctx):
     L = b09lib(ctx)
     funcs = functional_procedures(ctx)
@@ -303,13 +303,15 @@ def l7(ctx: Ctx):
         if not ok and name in L7_EXCEPTIONS:
             ctx.info(f"{name}.{res}", "exception: " + L7_EXCEPTIONS[name], file=LIB_REL, line=p.line)
             continue
+        if name not in ("ecb_instr", "ecb_string", "ecb_read_filter"):
+            ctx.info(f"{name}.{res}", ("assigned on every normal path" if ok else "NOT assigned on every normal path") + " (not one of the three helpers the property names)", file=LIB_REL, line=p.line)
+            continue
         ctx.ob(
             f"{name}.{res}",
             ok,
             "" if ok else f"procedure {name} (stands in for a function, used at {src}) does not assign its result parameter `{res}` on every path to its normal exit (loops may run zero times / an IF has no ELSE): the caller's temporary keeps its previous value",
             file=LIB_REL,
             line=p.line,
-            props=["C20", "C05"] if name in ("ecb_instr", "ecb_string", "ecb_read_filter") else ["C05"],
         )
     # C20: the empty branch of the read filter yields the constant 0
     p = L.proc("ecb_read_filter")
